@@ -121,8 +121,14 @@ def run_case(acc, seed, idx):
                 b = rng.choice(ws)
                 if mv == 'manual':
                     ok = w.do('manual_commit', branch=b)
+                elif rng.random() < 0.5:
+                    # conflict-resolution style: the source moved on and the
+                    # user merges it into the integration branch by hand
+                    w.do('push_commit', branch=p['src'])
+                    rewrites.append('extend')
+                    ok = w.do('manual_merge', branch=b, other=p['src'])
                 else:
-                    # a side branch to merge (conflict-resolution style)
+                    # a side branch merged into the integration branch
                     side = 'user/side-%d' % len(manual)
                     w._sync_actor()
                     w.git('checkout', '-q', '-B', side, 'origin/' + b)
